@@ -287,7 +287,7 @@ func validEscape(b byte, out []byte) bool {
 
 func ruleJSONEscape(c *Ctx) {
 	p := c.P
-	fn := p.findFunc("plenccodec", "JSONOutput", "appendString")
+	fn := p.jsonEscaper()
 	if fn == nil {
 		c.Oblige("J.escape", false, token.NoPos, "plenccodec.JSONOutput.appendString", "function", "not found", nil)
 		return
@@ -654,10 +654,13 @@ func analyseJOut(p *Prog, fn *fnRef) joutMethod {
 	ast.Inspect(fn.Decl.Body, func(n ast.Node) bool {
 		switch x := n.(type) {
 		case *ast.CallExpr:
-			if sel, ok := x.Fun.(*ast.SelectorExpr); ok {
+			if esc := p.jsonEscaper(); esc != nil && callee(info, x) == esc.Obj {
+				// the escaper, whether it is a method of the outputter or a plain function
+				m.calls = append(m.calls, "appendString")
+			} else if sel, ok := x.Fun.(*ast.SelectorExpr); ok {
 				if id, ok := sel.X.(*ast.Ident); ok && info.Uses[id] == recv {
 					switch sel.Sel.Name {
-					case "prefix", "punctuate", "end", "appendString":
+					case "prefix", "punctuate", "end":
 						m.calls = append(m.calls, sel.Sel.Name)
 					}
 				}
@@ -867,4 +870,56 @@ func appendedConstBytes(v ssa.Value) string {
 		}
 	}
 	return "?"
+}
+
+// jsonEscaper: the function that escapes strings for the JSON outputter - the
+// method JSONOutput.appendString, or (when it has been renamed or turned into a
+// plain function) the module function that JSONOutput.String hands its string
+// parameter to and that returns the extended buffer.
+func (p *Prog) jsonEscaper() *fnRef {
+	if fn := p.findFunc("plenccodec", "JSONOutput", "appendString"); fn != nil {
+		return fn
+	}
+	sf := p.findFunc("plenccodec", "JSONOutput", "String")
+	if sf == nil || sf.Decl.Body == nil {
+		return nil
+	}
+	info := sf.Pkg.TypesInfo
+	strs := map[types.Object]bool{}
+	for _, po := range paramObjs(info, sf.Decl) {
+		if po != nil {
+			if b, ok := po.Type().Underlying().(*types.Basic); ok && b.Info()&types.IsString != 0 {
+				strs[po] = true
+			}
+		}
+	}
+	var found *fnRef
+	n := 0
+	ast.Inspect(sf.Decl.Body, func(x ast.Node) bool {
+		call, ok := x.(*ast.CallExpr)
+		if !ok {
+			return true
+		}
+		obj := callee(info, call)
+		if obj == nil || obj.Pkg() == nil || obj.Pkg() != sf.Obj.Pkg() {
+			return true
+		}
+		sig := obj.Type().(*types.Signature)
+		if sig.Results().Len() != 1 || !isByteSlice(sig.Results().At(0).Type()) {
+			return true
+		}
+		for _, a := range call.Args {
+			if id, ok := ast.Unparen(a).(*ast.Ident); ok && strs[info.Uses[id]] {
+				if ref := p.refOf(obj); ref != nil && ref.Decl.Body != nil {
+					found = ref
+					n++
+				}
+			}
+		}
+		return true
+	})
+	if n != 1 {
+		return nil
+	}
+	return found
 }
